@@ -13,14 +13,18 @@ Open Scope Z_scope.
     amount (from iterating ALL bank balances, unknown accounts folded into one index); [o_sup]: bank
     supply; [o_vo]: keeper GetScopeValueOwner ([None] also when it errors); [o_q]: gRPC Scope query,
     [None] = scope not found, [Some v] = found with value_owner_address v; [o_own]: gRPC
-    ValueOwnership per account. *)
+    ValueOwnership per account (all pages); [o_gr]: every grant in the authz store (authz keeper
+    IterateGrants) with expiration and remaining uses; [o_qr]: every quarantine record (quarantine
+    keeper IterateQuarantineRecords) with its scope coins. *)
 Record obs := {
   o_ok : bool;
   o_bal : list (sid * list (addr * Z));
   o_sup : list (sid * Z);
   o_vo : list (sid * option addr);
   o_q : list (sid * option (option addr));
-  o_own : list (addr * list sid) }.
+  o_own : list (addr * list sid);
+  o_gr : list grant;
+  o_qr : list qrec }.
 
 Definition obal (o : obs) (d : sid) : list (addr * Z) := match get (o_bal o) d with Some l => l | None => [] end.
 Definition osup (o : obs) (d : sid) : Z := match get (o_sup o) d with Some z => z | None => 0 end.
@@ -35,6 +39,21 @@ Definition oholder (o : obs) (d : sid) : option addr :=
 Definition same_sids (l1 l2 : list sid) : bool :=
   forallb (fun a => mem a l2) l1 && forallb (fun a => mem a l1) l2.
 
+Definition optZ_eqb (x y : option Z) : bool :=
+  match x, y with Some a, Some b => Z.eqb a b | None, None => true | _, _ => false end.
+Definition grant_eqb (g h : grant) : bool :=
+  g_is (g_granter g) (g_grantee g) (g_kind g) h && optZ_eqb (g_exp g) (g_exp h) && optZ_eqb (g_left g) (g_left h).
+Definition grants_same (l1 l2 : list grant) : bool :=
+  forallb (fun g => existsb (grant_eqb g) l2) l1 && forallb (fun g => existsb (grant_eqb g) l1) l2.
+
+(** Amount of scope [d] in a coin list. *)
+Definition coins_amt (c : list (sid * Z)) (d : sid) : Z :=
+  fold_left (fun acc e => if N.eqb (fst e) d then acc + snd e else acc) c 0.
+Definition qrec_eqb (ids : list sid) (r r' : qrec) : bool :=
+  q_is (q_to r) (q_from r) r' && forallb (fun d => Z.eqb (coins_amt (q_coins r) d) (coins_amt (q_coins r') d)) ids.
+Definition qrecs_same (ids : list sid) (l1 l2 : list qrec) : bool :=
+  forallb (fun r => existsb (qrec_eqb ids r) l2) l1 && forallb (fun r => existsb (qrec_eqb ids r) l1) l2.
+
 (** *** corr: model state against the observation *)
 Definition corr_step (ids : list sid) (accts : list addr) (s' : state) (ok : bool) (o : obs) : list string :=
   tag (Bool.eqb ok (o_ok o)) "corr:accepted/rejected" ++
@@ -42,7 +61,9 @@ Definition corr_step (ids : list sid) (accts : list addr) (s' : state) (ok : boo
   tag (forallb (fun d => Z.eqb (sup s' d) (osup o d)) ids) "corr:scope token supply" ++
   tag (forallb (fun d => opt_addr_eqb (value_owner s' d) (ovo o d)) ids) "corr:value owner" ++
   tag (forallb (fun d => Bool.eqb (match scope_of s' d with Some _ => true | None => false end)
-                                  (match oq o d with Some _ => true | None => false end)) ids) "corr:scope existence".
+                                  (match oq o d with Some _ => true | None => false end)) ids) "corr:scope existence" ++
+  tag (grants_same (grants s') (o_gr o)) "corr:authz grants (expiration, remaining uses)" ++
+  tag (qrecs_same ids (qrecs s') (o_qr o)) "corr:quarantine records".
 
 (** *** prop: the property's checker on the observation alone *)
 Definition unique_ok (ids : list sid) (o : obs) : bool :=
@@ -64,17 +85,55 @@ Definition query_is_holder (ids : list sid) (accts : list addr) (o : obs) : bool
                     match oq o d with Some v => opt_addr_eqb v (oholder o d) | None => true end) ids &&
   forallb (fun a => same_sids (oown o a) (filter (fun d => opt_is (oholder o d) a) ids)) accts.
 
-(** Executable forms of [consent] / [deposit_ok]; the environment (grants, markers) is an input of
-    the history (only the environment steps change it), read from the state before the step. *)
-Definition consent_b (s : state) (op0 : op) (h : addr) : bool :=
+(** Every quarantine record is backed by the funds holder's balance. *)
+Definition records_backed (ids : list sid) (o : obs) : bool :=
+  forallb (fun d => Z.leb (fold_left (fun acc r => acc + coins_amt (q_coins r) d) (o_qr o) 0)
+                          (bal_of (obal o d) QHOLD)) ids.
+
+(** Executable forms of [consent] / [deposit_ok].  The environment is read from the history's own
+    inputs (markers, sanctions and block time change only by environment steps that cannot fail)
+    and, for the authz grants and the quarantine records, from the implementation's observation
+    BEFORE the step ([gr], [qr]).  For a marker the checker insists on the marker clause (theorem
+    C09_marker_out_needs_withdraw shows the model always provides it). *)
+Definition consent_b (s : state) (gr : list grant) (qr : list qrec) (op0 : op) (d : sid) (h : addr)
+  (h1 : option addr) : bool :=
   let sg := signers_of op0 in
-  mem h sg ||
-  (match kind_of op0 with Some k => existsb (fun g => has_grant s h g k) sg | None => false end) ||
-  (match marker_of s h with Some m => any_in sg (mk_withdraw m) | None => false end).
+  match marker_of s h with
+  | Some m => any_in sg (mk_withdraw m) && negb (is_accept op0)
+  | None =>
+      mem h sg ||
+      (match kind_of op0 with Some k => existsb (fun g => usable (now s) gr h g k) sg | None => false end) ||
+      (N.eqb h QHOLD &&
+       match op0 with
+       | OAccept to froms _ =>
+           opt_is h1 to &&
+           existsb (fun r => accepted to froms r && mem d (map fst (q_coins r))) qr
+       | _ => false
+       end)
+  end.
+
+(** The grant through which a holder's consent was given (the holder neither signed nor is a marker)
+    was live before the message and has been used once by it (theorem C09_grant_use_is_consumed):
+    read from the implementation's grants before ([gr]) and after ([gr']) the step. *)
+Definition opt_grant_eqb (x y : option grant) : bool :=
+  match x, y with Some a, Some b => grant_eqb a b | None, None => true | _, _ => false end.
+Definition grant_used_b (s : state) (gr gr' : list grant) (op0 : op) (h : addr) : bool :=
+  let sg := signers_of op0 in
+  match kind_of op0, marker_of s h with
+  | Some k, None =>
+      mem h sg ||
+      existsb (fun g => match lookup gr h g k with
+                        | Some g0 => live (now s) g0 && opt_grant_eqb (lookup gr' h g k) (after_use g0)
+                        | None => false
+                        end) sg
+  | _, _ => true
+  end.
 
 Definition deposit_b (s : state) (op0 : op) (n : addr) : bool :=
   match marker_of s n with
-  | Some m => if mk_restricted m then any_in (signers_of op0) (mk_deposit m) else true
+  | Some m => if mk_restricted m
+              then any_in (signers_of op0) (mk_deposit m) || (is_accept op0 && mem QHOLD (mk_deposit m))
+              else true
   | None => true
   end.
 
@@ -88,7 +147,8 @@ Definition oq_eqb (x y : option (option addr)) : bool :=
 Definition same_obs (ids : list sid) (accts : list addr) (a b : obs) : bool :=
   forallb (fun d => forallb (fun x => Z.eqb (bal_of (obal a d) x) (bal_of (obal b d) x)) accts &&
                     Z.eqb (osup a d) (osup b d) && opt_addr_eqb (ovo a d) (ovo b d) &&
-                    oq_eqb (oq a d) (oq b d)) ids.
+                    oq_eqb (oq a d) (oq b d)) ids &&
+  grants_same (o_gr a) (o_gr b) && qrecs_same ids (o_qr a) (o_qr b).
 
 (** Every scope whose holder (by the balances) differs from the one before the step: the previous
     holder, if any, consented; a new holder that is a restricted marker got it from someone with
@@ -98,13 +158,39 @@ Definition changes_justified (ids : list sid) (s : state) (op0 : op) (prev cur :
     let h0 := oholder prev d in
     let h1 := oholder cur d in
     if opt_addr_eqb h0 h1 then true else
-    (match h0 with Some h => consent_b s op0 h | None => true end) &&
+    (match h0 with Some h => consent_b s (o_gr prev) (o_qr prev) op0 d h h1 | None => true end) &&
     (match h1 with Some n => deposit_b s op0 n | None => true end)) ids.
+
+(** The tokens of a sanctioned holder stay where they are (theorem C09_sanctioned_owner_keeps_token). *)
+Definition grants_used (ids : list sid) (s : state) (op0 : op) (prev cur : obs) : bool :=
+  forallb (fun d =>
+    match oholder prev d with
+    | Some h => if opt_is (oholder cur d) h then true else grant_used_b s (o_gr prev) (o_gr cur) op0 h
+    | None => true
+    end) ids.
+
+Definition sanctioned_keep (ids : list sid) (s : state) (prev cur : obs) : bool :=
+  forallb (fun d => match oholder prev d with
+                    | Some h => if mem h (sanctioned s) then opt_is (oholder cur d) h else true
+                    | None => true
+                    end) ids.
 
 Definition delete_burns (op0 : op) (o : obs) : bool :=
   match op0 with
   | ODelete _ d => if o_ok o then Z.eqb (osup o d) 0 && is_nil (obal o d) && (match oq o d with None => true | Some _ => false end)
                    else true
+  | _ => true
+  end.
+
+(** An accepted bulk change moved EVERY listed scope (every scope of the migrated owner) to the new
+    owner or, when that owner quarantines the sender, to the quarantine funds holder. *)
+Definition to_new (o : obs) (p : addr) (d : sid) : bool :=
+  opt_is (oholder o d) p || opt_is (oholder o d) QHOLD.
+Definition bulk_all (ids : list sid) (op0 : op) (prev cur : obs) : bool :=
+  if negb (o_ok cur) then true else
+  match op0 with
+  | OUpdate _ ds p => forallb (to_new cur p) ds
+  | OMigrate _ e p => forallb (fun d => if opt_is (oholder prev d) e then to_new cur p d else true) ids
   | _ => true
   end.
 
@@ -114,6 +200,10 @@ Definition prop_step (ids : list sid) (accts : list addr) (s : state) (op0 : op)
   tag (query_is_holder ids accts cur) "prop:reported value owner is not the token holder" ++
   tag (if o_ok cur then true else same_obs ids accts prev cur) "prop:rejected message changed state" ++
   tag (changes_justified ids s op0 prev cur) "prop:value owner changed without the owner's consent" ++
+  tag (grants_used ids s op0 prev cur) "prop:the authz grant that gave the consent was not used up" ++
+  tag (sanctioned_keep ids s prev cur) "prop:token left a sanctioned value owner" ++
+  tag (bulk_all ids op0 prev cur) "prop:accepted bulk change did not move every scope" ++
+  tag (records_backed ids cur) "prop:quarantine record without the token in escrow" ++
   tag (delete_burns op0 cur) "prop:deleted scope keeps its token".
 
 Fixpoint check_hist (ids : list sid) (accts : list addr) (s : state) (prev : obs) (i : N)
